@@ -20,6 +20,13 @@ FUNCTIONS = [
     'circus.util:synchronized.real_decorator.wrapper',
     'circus.commands.sendsignal:Signal.execute',
     'circus.commands.kill:Kill.execute',
+    # applying a set request: option by option through set_opt (known finding F-15: a refusal by set_opt itself comes
+    # after the earlier options of the same request were applied)
+    'circus.watcher:Watcher.set_opt',
+    'circus.commands.set:Set.execute',
+    # add: endpoint-owner check and duplicate-name refusal before any effect
+    'circus.commands.addwatcher:AddWatcher.execute',
+    'circus.arbiter:Arbiter.endpoint_owner_mode',
 ]
 LEMMAS = []
 FRAMES = [
@@ -34,10 +41,9 @@ ASSUMPTIONS = ['A-PY', 'A-STR', 'A-TYPES', 'A-DICTORDER: dict iteration order le
 TRUSTED = ['$AnyCommand.validate / $AnyCommand.execute: the abstract command the dispatcher calls; every validate '
            'under contract above refines the abstract validate contract (modifies only the JSON properties)']
 NOT_DECIDED = [
-    'Set.execute / Watcher.set_opt: whether a set request whose k-th option is refused by set_opt itself (ValueError '
-    'for a singleton watcher, unknown user name for uid/gid, non-string hook value) has already applied options '
-    '1..k-1 -- set_opt is not under contract (candidate finding F-15 in DESIGN.md)',
-    'AddWatcher.execute: endpoint-owner check and the Watcher constructor (options applied by keyword) are not under contract',
+    'the stream (stdout_stream.* / stderr_stream.*) and hook (hooks.*) option families: Watcher._reload_stream and '
+    '_reload_hook are trusted, not verified, and may fail half-way',
+    'the Watcher constructor (options applied by keyword in add) is trusted; Watcher.start after add is trusted',
     'commands other than set/add/signal/kill: their execute bodies are abstracted by $AnyCommand.execute',
 ]
 DESIGN_REF = 'DESIGN.md section 8, C11'
@@ -46,4 +52,4 @@ TECHNIQUE = ('contract-based deductive verification (ghost counters val_calls/ex
 LEVEL_TEXT = ('Dispatch: execute starts only after validate accepted, and a request refused before execution leaves the '
               'whole heap unchanged; every validate (base + 4 overrides) has an empty frame and Set/AddWatcher validate '
               'every option before returning; unknown watcher / duplicate name / conflict are raised before any write.')
-LEVEL_NOTE = 'Not decided: refusals raised inside Set.execute/set_opt and AddWatcher.execute after partial application.'
+LEVEL_NOTE = 'Known finding F-15 (Set.execute applies options before a later one is refused by set_opt). Not decided: AddWatcher.execute, stream/hook option families.'
